@@ -383,6 +383,12 @@ class BinaryZlibFile(io.BufferedIOBase):
         # return any data. In this case, try again after reading another block.
         while self._buffer_offset == len(self._buffer):
             try:
+                if self._decompressor.eof:
+                    # The end-of-stream marker has been reached: whatever
+                    # follows it in the file is not part of the compressed
+                    # stream. Feeding it (unused_data) back to the decompressor
+                    # never yields data and would loop forever.
+                    raise EOFError
                 rawblock = self._decompressor.unused_data or self._fp.read(_BUFFER_SIZE)
                 if not rawblock:
                     raise EOFError
